@@ -621,6 +621,25 @@ class Direction:
             return "west"
         return "unknown"
 
+    @staticmethod
+    def to_value(direction: "Direction | int") -> int:
+        """
+        Plain value of a direction (what is stored in a data container, so that the container
+        stays a JSON-like dictionary on every database back-end).
+        """
+        if isinstance(direction, Direction):
+            return direction.direction
+        return direction
+
+    @staticmethod
+    def from_value(value: "Direction | int") -> "Direction":
+        """
+        Direction object of a stored direction value.
+        """
+        if isinstance(value, Direction):
+            return value
+        return Direction(value)
+
 
 @dataclass(frozen=True)
 class Circle:
@@ -911,7 +930,7 @@ class AddDataProviderReq:
                         {
                             "aSemiAxis": self.location.reference_area.geometric_area.rectangle.a_semi_axis,
                             "bSemiAxis": self.location.reference_area.geometric_area.rectangle.b_semi_axis,
-                            "azimuthAngle": self.location.reference_area.geometric_area.rectangle.azimuth_angle,
+                            "azimuthAngle": Direction.to_value(self.location.reference_area.geometric_area.rectangle.azimuth_angle),
                         }
                         if self.location.reference_area.geometric_area.rectangle
                         is not None
@@ -921,7 +940,7 @@ class AddDataProviderReq:
                         {
                             "aSemiAxis": self.location.reference_area.geometric_area.ellipse.a_semi_axis,
                             "bSemiAxis": self.location.reference_area.geometric_area.ellipse.b_semi_axis,
-                            "azimuthAngle": self.location.reference_area.geometric_area.ellipse.azimuth_angle,
+                            "azimuthAngle": Direction.to_value(self.location.reference_area.geometric_area.ellipse.azimuth_angle),
                         }
                         if self.location.reference_area.geometric_area.ellipse
                         is not None
@@ -983,7 +1002,7 @@ class AddDataProviderReq:
                             {
                                 "aSemiAxis": self.location.reference_area.geometric_area.rectangle.a_semi_axis,
                                 "bSemiAxis": self.location.reference_area.geometric_area.rectangle.b_semi_axis,
-                                "azimuthAngle": self.location.reference_area.geometric_area.rectangle.azimuth_angle,
+                                "azimuthAngle": Direction.to_value(self.location.reference_area.geometric_area.rectangle.azimuth_angle),
                             }
                             if self.location.reference_area.geometric_area.rectangle
                             is not None
@@ -993,7 +1012,7 @@ class AddDataProviderReq:
                             {
                                 "aSemiAxis": self.location.reference_area.geometric_area.ellipse.a_semi_axis,
                                 "bSemiAxis": self.location.reference_area.geometric_area.ellipse.b_semi_axis,
-                                "azimuthAngle": self.location.reference_area.geometric_area.ellipse.azimuth_angle,
+                                "azimuthAngle": Direction.to_value(self.location.reference_area.geometric_area.ellipse.azimuth_angle),
                             }
                             if self.location.reference_area.geometric_area.ellipse
                             is not None
@@ -1075,9 +1094,9 @@ class AddDataProviderReq:
                         b_semi_axis=reference_area_data["geometricArea"]["rectangle"][
                             "bSemiAxis"
                         ],
-                        azimuth_angle=reference_area_data["geometricArea"]["rectangle"][
-                            "azimuthAngle"
-                        ],
+                        azimuth_angle=Direction.from_value(
+                            reference_area_data["geometricArea"]["rectangle"]["azimuthAngle"]
+                        ),
                     )
                     if reference_area_data["geometricArea"]["rectangle"]
                     else Rectangle(
@@ -1092,9 +1111,9 @@ class AddDataProviderReq:
                         b_semi_axis=reference_area_data["geometricArea"]["ellipse"][
                             "bSemiAxis"
                         ],
-                        azimuth_angle=reference_area_data["geometricArea"]["ellipse"][
-                            "azimuthAngle"
-                        ],
+                        azimuth_angle=Direction.from_value(
+                            reference_area_data["geometricArea"]["ellipse"]["azimuthAngle"]
+                        ),
                     )
                     if reference_area_data["geometricArea"]["ellipse"]
                     else Ellipse(
